@@ -6,7 +6,7 @@ from __future__ import annotations
 import datetime
 from fractions import Fraction
 
-from .core import outcome, octs
+from .core import outcome, octs, rxbuf
 
 UTC = datetime.timezone.utc
 EPOCH58 = datetime.datetime(1958, 1, 1, tzinfo=UTC)
@@ -65,8 +65,10 @@ def op_cds_rt(a):
     from spacepackets.ccsds.time import CdsShortTimestamp
 
     def run():
+        from .probe import twin
+        twin(lambda: _mk(a["st"]), lambda x: (x + datetime.timedelta(days=1, milliseconds=1), x.read_from_raw(bytes([64, 1, 1, 0, 0, 1, 1]))))
         s = _mk(a["st"])
-        raw = bytes(s.pack()) + bytes(a["sfx"])
+        raw = rxbuf(s.pack(), a["sfx"])
         d = CdsShortTimestamp.unpack(raw)
         t = CdsShortTimestamp.unpack_from_raw(raw)
         # read_from_raw on objects with a history: an empty one and one built by from_datetime (whose views were
